@@ -207,8 +207,9 @@ class Run:
         self.errf.seek(0)
         return self.errf.read()
 
-    def kill(self):
-        """forcible clean-up of the whole session (never part of a verdict)"""
+    def kill(self, skip_first=0):
+        """forcible clean-up of the whole session (never part of a verdict); skip_first: number of leading trace lines that
+        belong to an earlier invocation on the same project and must be left alone (its leftovers are still to be judged)"""
         try:
             os.killpg(self.proc.pid, signal.SIGKILL)
         except (ProcessLookupError, PermissionError):
@@ -217,7 +218,7 @@ class Run:
             self.proc.wait(timeout=5)
         except Exception:
             pass
-        for k, t, pid in self.trace():
+        for k, t, pid in self.trace()[skip_first:]:
             if k == 'start':
                 try:
                     os.kill(int(pid), signal.SIGKILL)
